@@ -874,6 +874,13 @@ func c14ConcScenarios(tier string) []scenario {
 		prm := c05Params{Prop: "C14", Name: "W3r", K: k, SameContent: true, Window: 8, DrainAt: time.Second, Writers: [][]wop{{{Chunks: []int{300}}}, {{Text: true, Chunks: []int{302}}}}}
 		scs = append(scs, scenario{Name: prm.Name + "/" + k.String(), Cfg: explore.Config{P: 2, Horizon: 60e9}, Setup: c05Setup(prm)})
 	}
+	// a Ping of the endpoint and the Pong answering the peer's Ping go out between the frames of a
+	// compressed message: the peer still decodes everything (control frames are never compressed
+	// and do not disturb the message's compression state)
+	for _, k := range []connCfg{{Client: false, Flate: true, Thr: 1}, {Client: true, Flate: true, Thr: 1, CNCT: true, SNCT: true}} {
+		prm := c05Params{Prop: "C14", Name: "WP-flate", K: k, Writers: [][]wop{{{Stream: true, Text: true, Chunks: []int{300, 300}}, {Chunks: []int{20}}}}, Pinger: true}
+		scs = append(scs, scenario{Name: prm.Name + "/" + k.String(), Cfg: explore.Config{P: p, Horizon: 60e9}, Setup: c05Setup(prm)})
+	}
 	return scs
 }
 
